@@ -12,10 +12,11 @@
     `WeekBudget.sub_ok` (the subtraction succeeds) and `WeekBudget.pay` (the budget is inductive
     under a payment); `WeekBudget.init`: at freeze time it follows from `Σ e ≤ E` and `Σ f ≤ F`.
 
-  The farm model does NOT keep `Σ f ≤ F` in every reachable state (see Props/C05Cover.lean,
-  `weekly_pool_underflow_example`): the user's CURRENT total position is used against the PAST
-  week's supply, and a position can reach a user without the user's claim progress advancing when
-  no boosted config exists yet.
+  `Σ f ≤ F`: the user's CURRENT total position is used against the PAST week's supply.  Before the
+  repair of finding F6 a position could reach a user without the user's claim progress advancing
+  (no boosted config yet ⇒ early return), so the farm did NOT keep `Σ f ≤ F`; the repaired
+  `claim_boosted_yields_rewards` always advances the progress and `Σ f ≤ F` is an invariant of
+  every reachable state (Lemmas/FarmWeekPos.lean, Props/C05Budget.lean).
 -/
 import MxModel.Lemmas.FarmBoost
 import Mathlib.Tactic.Linarith
